@@ -204,7 +204,15 @@ def rule_c(ctx, cr):
     ctx.check("\n" in names, "C11.c", "print-list/newline-literal", pl.span,
               "the implicit newline is a \"\\n\" string literal")
     # linefeed flag: false on ';' and ',', true on expression; newline only if linefeed
-    lf = pl.locals_named("linefeed")
+    # the flag: a user bool local that is assigned constants in several places (its name is free)
+    lf = set()
+    for l, ds in pl.defs().items():
+        if pl.local_ty(l) != "bool" or not pl.name_of_local(l):
+            continue
+        k = sum(1 for d in ds if d[0] == "stmt" and d[3]["k"] == "use"
+                and isinstance(pl.const_of_operand(d[3]["op"]), bool))
+        if k >= 3:
+            lf.add(l)
     vals = []
     for b, i, st in pl.assigns():
         if not st["place"]["proj"] and st["place"]["local"] in lf and st["rv"]["k"] == "use":
